@@ -404,6 +404,7 @@ func checkC18(ctx *Ctx, r *Report) {
 		c18Method(ctx, r, m)
 	}
 	r.Floor("fields checked for coverage", 80)
+	c18Helpers(ctx, r)
 	c18Payloads(ctx, r)
 	checkProcessCopiesFirst(ctx, r, "copycheck/use")
 }
@@ -533,13 +534,13 @@ func c18Method(ctx *Ctx, r *Report, m copyMethod) {
 					continue
 				}
 				for _, c := range enclosingConds(parents, p.node) {
-					if !j.mentionsField(c.stmt.Cond, src, f) || c.inElse {
+					if c.inElse || !guardOnlyTestsPresence(info, c.stmt.Cond, src, f) {
 						condOK = false
 					}
 				}
 			}
 			if !condOK {
-				r.Bad("copycheck/coverage", cons, ps[0].node.Pos(), fmt.Sprintf("%s copies field %s only under a condition unrelated to that field", name, f.Name()))
+				r.Bad("copycheck/coverage", cons, ps[0].node.Pos(), fmt.Sprintf("%s copies field %s only under a condition that is more than a nil/emptiness test of that field: some values of the field are dropped from the copy", name, f.Name()))
 				continue
 			}
 			r.OK("copycheck/coverage", cons, ps[0].node.Pos(), "assigned from the same field of the source")
@@ -851,4 +852,127 @@ func checkProcessCopiesFirst(ctx *Ctx, r *Report, rule string) {
 	})
 	r.Check(passCalls >= 1 && passCalls == okCalls, rule, "internal/ast/compiler.Passes.Process pass loop", fd.Pos(),
 		"each pass receives the local holding the copy", "a pass is invoked on something other than the local holding the deep copy")
+}
+
+// guardOnlyTestsPresence: cond is exactly `src.F != nil`, or for slices/maps
+// also `len(src.F) != 0` / `len(src.F) > 0`. Anything stronger drops values.
+func guardOnlyTestsPresence(info *types.Info, cond ast.Expr, src types.Object, f *types.Var) bool {
+	be, ok := ast.Unparen(cond).(*ast.BinaryExpr)
+	if !ok {
+		return false
+	}
+	isSrcField := func(e ast.Expr) bool {
+		sel, ok := ast.Unparen(e).(*ast.SelectorExpr)
+		if !ok || fieldOf(info, sel) != f {
+			return false
+		}
+		id, ok := ast.Unparen(sel.X).(*ast.Ident)
+		return ok && objOf(info, id) == src
+	}
+	if be.Op == token.NEQ && isSrcField(be.X) && isNilIdent(info, be.Y) {
+		return true
+	}
+	switch f.Type().Underlying().(type) {
+	case *types.Slice, *types.Map:
+		if c, ok := ast.Unparen(be.X).(*ast.CallExpr); ok && isBuiltinCall(info, c, "len") && len(c.Args) == 1 && isSrcField(c.Args[0]) {
+			if tv := info.Types[be.Y]; tv.Value != nil && tv.Value.String() == "0" && (be.Op == token.NEQ || be.Op == token.GTR) {
+				return true
+			}
+		}
+	}
+	return false
+}
+
+// c18Helpers: the generic helpers that the alias rule trusts as copying
+// producers must themselves return fresh containers filled only with mapper
+// results.
+func c18Helpers(ctx *Ctx, r *Report) {
+	helpers := []*types.Func{ctx.LookupFunc("internal/tools", "Map"), ctx.LookupMethod("internal/orderedmap", "Map", "Map")}
+	var newFn *types.Func = ctx.LookupFunc("internal/orderedmap", "New")
+	var setFn *types.Func = ctx.LookupMethod("internal/orderedmap", "Map", "Set")
+	for _, h := range helpers {
+		if h == nil {
+			r.Undecided("anchor lost: copy helper tools.Map / orderedmap.Map.Map")
+			continue
+		}
+		fd, p := ctx.DeclOf(h)
+		if fd == nil {
+			r.Undecided("anchor lost: body of %s", h.FullName())
+			continue
+		}
+		info := p.TypesInfo
+		name := ctx.FuncName(h)
+		sig := h.Type().(*types.Signature)
+		var mapper types.Object
+		for i := 0; i < sig.Params().Len(); i++ {
+			if _, ok := sig.Params().At(i).Type().Underlying().(*types.Signature); ok {
+				mapper = sig.Params().At(i)
+			}
+		}
+		// returned local
+		var res types.Object
+		ast.Inspect(fd.Body, func(n ast.Node) bool {
+			if rs, ok := n.(*ast.ReturnStmt); ok && len(rs.Results) == 1 {
+				if id, ok := ast.Unparen(rs.Results[0]).(*ast.Ident); ok {
+					res = objOf(info, id)
+				}
+			}
+			return true
+		})
+		ok, why := res != nil && mapper != nil, "helper does not return a local / has no mapper parameter"
+		if ok {
+			fresh, filled := false, false
+			ast.Inspect(fd.Body, func(n ast.Node) bool {
+				switch x := n.(type) {
+				case *ast.AssignStmt:
+					for i, l := range x.Lhs {
+						if len(x.Rhs) != len(x.Lhs) {
+							continue
+						}
+						rhs := ast.Unparen(x.Rhs[i])
+						if isIdentOf(info, l, res) {
+							c, isCall := rhs.(*ast.CallExpr)
+							switch {
+							case isCall && (isBuiltinCall(info, c, "make") || callee(info, c) == newFn):
+								fresh = true
+							case isCall && isBuiltinCall(info, c, "append") && isIdentOf(info, c.Args[0], res) && len(c.Args) == 2 && !c.Ellipsis.IsValid() && isCallOf(info, c.Args[1], mapper):
+								filled = true
+							default:
+								ok, why = false, "result is assigned from "+exprString(rhs)+", which is neither fresh storage nor an append of the mapper's result"
+							}
+							continue
+						}
+						// res.field = … / res[i] = …
+						if ap := accessPathOf(info, l); ap.ok && ap.root == res && len(ap.steps) > 0 {
+							if ix, isIx := ast.Unparen(l).(*ast.IndexExpr); isIx && isIdentOf(info, ix.X, res) && isCallOf(info, rhs, mapper) {
+								filled = true
+								continue
+							}
+							ok, why = false, "the helper writes "+exprString(l)+" directly from "+exprString(rhs)+": storage of the source is shared with the result"
+						}
+					}
+				case *ast.CallExpr:
+					if setFn != nil && callee(info, x) == setFn {
+						if sel, isSel := x.Fun.(*ast.SelectorExpr); isSel && isIdentOf(info, sel.X, res) && len(x.Args) == 2 && isCallOf(info, x.Args[1], mapper) {
+							filled = true
+						}
+					}
+				}
+				return true
+			})
+			if ok && !(fresh && filled) {
+				ok, why = false, "result is not (fresh container + elements produced by the mapper)"
+			}
+		}
+		r.Check(ok, "copycheck/helper", name, fd.Pos(), "returns a fresh container whose elements are exactly the mapper's results", name+": "+why)
+	}
+}
+
+func isCallOf(info *types.Info, e ast.Expr, fn types.Object) bool {
+	c, ok := ast.Unparen(e).(*ast.CallExpr)
+	if !ok {
+		return false
+	}
+	id, ok := ast.Unparen(c.Fun).(*ast.Ident)
+	return ok && objOf(info, id) == fn
 }
